@@ -2,7 +2,7 @@
 From Coq Require Import String ZArith List Bool.
 From XV Require Import Base.Label Base.LSet Base.ODict Base.Attr Base.Outcome Model.Hypergraph
   Model.HgCheck Model.SimplicialComplex Model.ScCheck Proofs.HgViews Proofs.HgInv Proofs.ScInv Proofs.ScMaxOrder
-  Model.PyIR Gen.Mutators Gen.ScMutators Proofs.ScMutatorSource.
+  Model.PyIR Gen.ScMutators Proofs.ScMutatorSource.
 Import ListNotations.
 
 (* SInv = two-way consistent incidence (C01's invariant) + every sub-face with >= 2 nodes of
